@@ -81,6 +81,16 @@ class B:
         return m
 
 
+def _capture_in_if(b: B, name: str) -> str:
+    """An If node (constant-true predicate made opaque through a graph input) whose
+    branches read `name` from the enclosing scope."""
+    if not any(i.name == "pred" for i in b.inputs):
+        b.inp([], np.bool_, name="pred")
+    then_g = helper.make_graph([helper.make_node("Neg", [name], ["cap_then_out"])], "cap_then", [], [helper.make_empty_tensor_value_info("cap_then_out")])
+    else_g = helper.make_graph([helper.make_node("Abs", [name], ["cap_else_out"])], "cap_else", [], [helper.make_empty_tensor_value_info("cap_else_out")])
+    return b.node("If", ["pred"], then_branch=then_g, else_branch=else_g)
+
+
 def _apply_unary(b: B, op: str, x: str, rng) -> str:
     if op == "CastF":
         return b.node("Cast", [x], to=F)
@@ -156,6 +166,9 @@ def t_transpose_chain(r: dict[str, Any]) -> onnx.ModelProto:
     for i in r.get("extra_consumers", []):
         if i < len(mids):
             b.outputs.append(b.node("Neg", [mids[i]]))
+    for i in r.get("extra_captures", []):
+        if i < len(mids):
+            b.outputs.append(_capture_in_if(b, mids[i]))
     return b.model()
 
 
@@ -179,6 +192,8 @@ def t_transpose_reduce(r: dict[str, Any]) -> onnx.ModelProto:
             b.outputs.append(mids[i])
     for i in r.get("extra_consumers", []):
         b.outputs.append(b.node("Neg", [mids[i]]))
+    for i in r.get("extra_captures", []):
+        b.outputs.append(_capture_in_if(b, mids[i]))
     return b.model()
 
 
@@ -202,12 +217,18 @@ def t_add_forest(r: dict[str, Any]) -> onnx.ModelProto:
     b.outputs.append(out)
     if r.get("second_inverse"):
         b.outputs.append(b.node("Transpose", [mids[-1]], perm=perm2))
+    if r.get("second_exit_perm"):
+        src = mids[-1] if r.get("second_exit_from_last", True) else mids[len(ts)]
+        b.outputs.append(b.node("Transpose", [src], perm=r["second_exit_perm"]))
     for i in r.get("extra_outputs", []):
         if i < len(mids) and mids[i] not in b.outputs:
             b.outputs.append(mids[i])
     for i in r.get("extra_consumers", []):
         if i < len(mids):
             b.outputs.append(b.node("Neg", [mids[i]]))
+    for i in r.get("extra_captures", []):
+        if i < len(mids):
+            b.outputs.append(_capture_in_if(b, mids[i]))
     return b.model()
 
 
@@ -240,6 +261,9 @@ def t_reshape_pair(r: dict[str, Any]) -> onnx.ModelProto:
     for i in r.get("extra_consumers", []):
         if i < len(mids):
             b.outputs.append(b.node("Neg", [mids[i]]))
+    for i in r.get("extra_captures", []):
+        if i < len(mids):
+            b.outputs.append(_capture_in_if(b, mids[i]))
     return b.model()
 
 
@@ -493,7 +517,9 @@ def _chain(rng, max_len: int) -> list[dict[str, Any]]:
 
 
 def _extras(rng, n_mids: int) -> dict[str, list[int]]:
-    d: dict[str, list[int]] = {"extra_outputs": [], "extra_consumers": []}
+    d: dict[str, list[int]] = {"extra_outputs": [], "extra_consumers": [], "extra_captures": []}
+    if n_mids and rng.random() < 0.2:
+        d["extra_captures"] = sorted(set(int(i) for i in rng.integers(0, n_mids, 1)))
     if n_mids and rng.random() < 0.35:
         d["extra_outputs"] = sorted(set(int(i) for i in rng.integers(0, n_mids, int(rng.integers(1, 3)))))
     if n_mids and rng.random() < 0.25:
@@ -534,6 +560,9 @@ def sample(template: str, rng: np.random.Generator) -> dict[str, Any]:
             r["odd_perm"] = inverse(perm1)
         if rng.random() < 0.3:
             r["scale_const"] = str(rng.choice(["scalar", "vector_last", "full_const"]))
+        if rng.random() < 0.3:
+            r["second_exit_perm"] = [int(v) for v in rng.permutation(len(perm1))]
+            r["second_exit_from_last"] = bool(rng.random() < 0.5)
         return r
     if template == "reshape_pair":
         sym = rng.random() < 0.3
